@@ -1,9 +1,17 @@
 use crate::report::Unit;
 pub mod c12;
+pub mod seqprops;
 
 pub fn units(id: &str, tier: &str) -> Option<Vec<Unit>> {
     let thorough = tier == "thorough";
     Some(match id {
+        "C01" => seqprops::c01(thorough),
+        "C02" => seqprops::c02(thorough),
+        "C04" => seqprops::c04(thorough),
+        "C05" => seqprops::c05(thorough),
+        "C08" => seqprops::c08(thorough),
+        "C10" => seqprops::c10(thorough),
+        "C11" => seqprops::c11(thorough),
         "C12" => c12::units(thorough),
         _ => return None,
     })
